@@ -30,6 +30,12 @@ class BaseTape:
     def __init__(self):
         self.reached_tags = []
         self.notes = []
+        self.forced = []
+
+    def force(self, values):
+        """partitioning: the next len(values) choice() draws return these values (recorded on the
+        tape like any other draw, so replays need no partition knowledge)"""
+        self.forced = list(values)
 
     # -- bookkeeping used by harnesses -------------------------------------------------
     def reached(self, tag='oracle'):
@@ -113,8 +119,16 @@ class XhTape(BaseTape):
     def choice(self, n):
         if n <= 1:
             return 0
-        v = self.int(0, n - 1)
         from crosshair.tracers import NoTracing
+        if self.forced:
+            r = self.forced.pop(0)
+            if not 0 <= r < n:
+                from crosshair.util import IgnoreAttempt
+                raise IgnoreAttempt('forced choice out of range')
+            with NoTracing():
+                self.vals.append(['choice', r])
+            return r
+        v = self.int(0, n - 1)
         with NoTracing():
             self.vals.pop()
         r = n - 1
